@@ -770,6 +770,66 @@ func runC03(r *core.Run) {
 			}
 		}
 	}
+	// very many conversions of distinct colours in one process, per space and direction (a counter of
+	// calls or of cache misses kept in 32 bits wraps after 2^31): 2^24 in the quick tier, 2^31 + 2^16
+	// in the thorough one, every 4096th result judged
+	if r.Variant == "" {
+		total := int64(1) << 24
+		if r.Thorough() {
+			total = int64(1)<<31 + 1<<16
+		}
+		type job struct {
+			s   *libSpace
+			dir int
+		}
+		var jobs []job
+		for _, s := range libSpaces {
+			jobs = append(jobs, job{s, 0}, job{s, 1})
+		}
+		var bad atomic.Int32
+		core.ParallelFor(len(jobs), 8, func(ji int) {
+			j := jobs[ji]
+			rr, gg, bb, ww := c04DeclXY(j.s)
+			ref, ok := refcolor.RGBToXYZ(rr, gg, bb, ww)
+			if !ok {
+				return
+			}
+			m := ref
+			if j.dir == 1 {
+				m, _ = ref.Inv()
+			}
+			defer func() {
+				if p := recover(); p != nil && bad.Add(1) == 1 {
+					r.Violate("point", j.s.Name+"/panic/call-count", fmt.Sprintf("%s %s panicked among %d conversions of distinct colours in one process: %v", j.s.Name, []string{"ToXYZ", "ColorFromXYZ"}[j.dir], total, p), c03Case{Space: j.s.Name, Kind: "call-count"})
+				}
+			}()
+			for i := int64(0); i < total; i++ {
+				// distinct inputs: the counter spread over the three components
+				in := [3]float32{float32(i&0x7FF) / 2048, float32((i>>11)&0x7FF) / 2048, float32((i>>22)&0x7FF)/2048 + float32(ji)/64}
+				var got [3]float32
+				if j.dir == 0 {
+					x := j.s.ToXYZ(linear.RGB{R: in[0], G: in[1], B: in[2]})
+					got = [3]float32{x.X, x.Y, x.Z}
+				} else {
+					c := j.s.FromXYZ(ciexyz.Color{X: in[0], Y: in[1], Z: in[2]})
+					got = [3]float32{c.R, c.G, c.B}
+				}
+				if i&4095 == 0 || i > total-64 {
+					want := m.MulV(refcolor.Vec{float64(in[0]), float64(in[1]), float64(in[2])})
+					for k := 0; k < 3; k++ {
+						if !(math.Abs(float64(got[k])-want[k]) <= 2e-5) {
+							if bad.Add(1) == 1 {
+								r.Violate("point", j.s.Name+"/linear/call-count", fmt.Sprintf("%s %s(%v) = %v as conversion #%d of the process, the declared primaries fix %v", j.s.Name, []string{"ToXYZ", "ColorFromXYZ"}[j.dir], in, got, i+1, want), c03Case{j.s.Name, "call-count", in, nil})
+							}
+							return
+						}
+					}
+				}
+			}
+		})
+		r.AddEvals(total * int64(len(jobs)))
+		r.Obs("conversions_per_space_and_direction_in_one_process", total)
+	}
 	if r.Variant == "" {
 		// the whole workload once more in the GOARCH=386 build of this monitor (see ./check)
 		r.RunVariantChild("arch386@16", 30*time.Minute, false)
